@@ -258,6 +258,10 @@ class World:
                 if ev["v"]["t"] == "cfgobj" or (ev["v"]["t"] == "list" and any(i.get("t") == "cfgobj" for i in codec.seq(ev["v"]["l"]))):
                     factory = cfgadapter.schema_field(cinco, self.schema, list(codec.seq(ev["p"])) + [ev["k"]])
                 setattr(target, ev["k"], cfgadapter.value_to_py(cinco, ev["v"], factory, self.root))
+            elif op == "Rebuild":
+                tree = self.cfg.to_tree()
+                subs = {k: tree[k] for k, f in codec.seq(self.desc["fields"]) if f["kind"] == "schema" and k in tree}
+                self.cfg = cinco.Config(self.schema, key_filename=self.keyfile, **subs)
             elif op == "Adopt":
                 other = cinco.Config(self.schema, key_filename=os.path.join(self.root, "kother"))
                 other.items = [{"u": "o", "pw": "adoptpw#1"}]
@@ -404,7 +408,7 @@ def driver(cinco, desc, seed, n_traces, length):
                         v = {"t": "list", "l": [D(u=S(rnd_text(rng, 0, 5)), pw=S(rnd_text(rng, 6, 10, edge=False))) if rng.random() < 0.7 else D(u=S("u")) for _ in range(rng.randint(0, 3))]}
                     ev = {"op": "Set", "p": p, "k": key, "v": v}
                 elif r < 0.64:
-                    ev = {"op": "Adopt"}
+                    ev = {"op": rng.choice(["Adopt", "Rebuild"])}
                 elif r < 0.85:
                     ev = {"op": "RoundTrip", "fmt": rng.choice(["json", "yaml", "bson", "xml", "pickle"])}
                 else:
@@ -527,7 +531,7 @@ def run_persist(prop, invs, props, tier, seed):
     sedges, sinits = normalise(sim.printed.get("EDGE", []), sim.printed.get("INIT", []))
     g2 = replay.Graph(sinits + inits, sedges)
     stats2, mism2 = replay.run_graph(adapter, g2, seed=seed)
-    relevant = {"C02": ("RoundTrip", "Set", "Adopt", "Render"), "C03": ("RoundTrip", "Set", "Adopt"), "C10": ("Render", "Set"), "C06": ("Set", "Adopt")}[prop]
+    relevant = {"C02": ("RoundTrip", "Rebuild", "Set", "Adopt", "Render"), "C03": ("RoundTrip", "Rebuild", "Set", "Adopt"), "C10": ("Render", "Set"), "C06": ("Set", "Adopt")}[prop]
     for m in (mism + mism2)[:30]:
         if m.ev["op"] not in relevant:
             continue
